@@ -1,6 +1,7 @@
 package checks
 
 import (
+	"context"
 	"fmt"
 	"regexp"
 	"strings"
@@ -155,8 +156,40 @@ func C05(e *simkern.Env) {
 		defer sim.Close()
 		hx.Rec.Reset()
 		judged := 0
+		// in half of the runs a dispatch hook gives every call its own context
+		// and the caller's patience runs out — that context is cancelled — while
+		// a planned handler is still in flight, just before it returns
+		giveUp := tp.Bool(1, 2)
+		cancels := map[string]context.CancelFunc{}
+		plan := map[int64]bool{}
+		if giveUp {
+			hx.BeforeOutcome = func(ctx context.Context, sc *hx.Script) {
+				v, ok := plan[sc.Nonce]
+				if !ok {
+					v = tp.Bool(1, 3)
+					plan[sc.Nonce] = v
+				}
+				if !v {
+					return
+				}
+				for _, op := range ops {
+					if op.Script != nil && op.Script.Nonce == sc.Nonce {
+						if c := cancels[op.ReqID]; c != nil {
+							sim.Fault("call-context-cancelled-in-handler")
+							c()
+						}
+					}
+				}
+			}
+			defer func() { hx.BeforeOutcome = nil }()
+		}
 		sess := &pipew.Session{Srv: pipew.NewServer(func(s *vgirpc.Server) {
 			s.SetDebugErrors(debug)
+			if giveUp {
+				s.SetDispatchHook(c02DeadlineHook{byReq: func(reqID string) (context.CancelFunc, func(context.CancelFunc)) {
+					return nil, func(c context.CancelFunc) { cancels[reqID] = c }
+				}})
+			}
 			if pipeVersion != "" {
 				s.SetProtocolVersion(pipeVersion)
 			}
@@ -340,7 +373,7 @@ func init() {
 		Real:  []string{"vgirpc error envelope (buildErrorExtra, writeErrorBatch) on serveUnary/serveStream/HTTP unary/stream paths, response caps, version gate, sticky token resolution"},
 		Stub:  []string{"transports", "protocol client", "scripted handlers", "object store"},
 		Quick: 600, Thorough: 60000,
-		Warm: warmHTTP, FaultKinds: []string{"malformed-request", "read-fragmentation", "write-delay"},
+		Warm: warmHTTP, FaultKinds: []string{"malformed-request", "read-fragmentation", "write-delay", "call-context-cancelled-in-handler"},
 		Assumptions: []string{"for framework refusals that are not scripted RpcError values the check demands a wire-stable name (never a Go %T type name) and, where the documentation names one, that exact name: AttributeError for an unknown method, RuntimeError for cap refusals; error_kind is asserted for scripted errors, protocol_version_mismatch, session_lost and server_draining (type ServerDrainingError, as errors.go documents)"},
 	}
 }
